@@ -1156,6 +1156,77 @@ def rule_r7(chk, p, t):
     )
 
 
+_CLIPS = {"maximum", "minimum", "clip", "fmax", "fmin", "floor", "ceil", "round", "rint", "trunc", "where", "heaviside", "sign", "around", "fix", "nan_to_num"}
+_SUMS = {"sum", "np_sum", "nansum", "fsum"}
+
+
+def rule_r8(chk, p, t):
+    r = chk.rule(
+        "C18.R8",
+        "weights formed as shares of a total are never 0 / 0 by construction",
+        1,
+        "model probabilities stay finite: wherever model_weights is computed from terms divided by their own total "
+        "(`x / sum(x)`), the terms reach the division as computed - not through an operation that sends a whole "
+        "range of values to exactly zero (maximum(. - floor, 0), clip, where, rounding, a comparison mask), which "
+        "makes `all terms zero` an ordinary input and the shares NaN; NaN passes every later guard (`nan < t`, "
+        "`fpe_equals(0, nan)` are false), so nothing is pruned, nothing closes and the mixture stays NaN.  Accepted "
+        "otherwise only under a dominating test of the total.  Decided for every assignment of model_weights in the "
+        "adaptive filter hierarchy",
+        "the exact-zero coincidence of unclipped floating-point terms",
+    )
+    base = p.cls("resonaate.estimation.adaptive.adaptive_filter.AdaptiveFilter")
+    n_sites = 0
+    for c in [base] + p.subclasses(base):
+        for m in c.methods.values():
+            fn = m.node
+            for st in walk_no_nested(fn):
+                if not (isinstance(st, (ast.Assign, ast.AugAssign)) and any(isinstance(tg, ast.Attribute) and tg.attr == "model_weights" for tg in (st.targets if isinstance(st, ast.Assign) else [st.target]))):
+                    continue
+                for d in ast.walk(st.value):
+                    if not (isinstance(d, ast.BinOp) and isinstance(d.op, ast.Div)):
+                        continue
+                    den = d.right
+                    tot = None
+                    if isinstance(den, ast.Call) and call_name(den) in _SUMS and den.args and isinstance(den.args[0], ast.Name):
+                        tot = den.args[0].id
+                    elif isinstance(den, ast.Call) and isinstance(den.func, ast.Attribute) and den.func.attr == "sum" and isinstance(den.func.value, ast.Name):
+                        tot = den.func.value.id
+                    if tot is None or not any(isinstance(x, ast.Name) and x.id == tot for x in ast.walk(d.left)):
+                        continue
+                    n_sites += 1
+                    cons = f"{m.qualname}:{tot}"
+                    # definitions of the terms
+                    srcs = []
+                    for n in walk_no_nested(fn):
+                        if isinstance(n, ast.Assign) and any(isinstance(tg, ast.Name) and tg.id == tot for tg in n.targets):
+                            srcs.append(n.value)
+                        elif isinstance(n, ast.AugAssign) and isinstance(n.target, ast.Name) and n.target.id == tot:
+                            srcs.append(n.value)
+                        elif isinstance(n, ast.Call) and isinstance(n.func, ast.Attribute) and n.func.attr in ("append", "extend", "insert") and isinstance(n.func.value, ast.Name) and n.func.value.id == tot:
+                            srcs.extend(n.args)
+                    clip = None
+                    for e in srcs:
+                        for x in ast.walk(e):
+                            if isinstance(x, ast.Call) and call_name(x) in _CLIPS:
+                                clip = x
+                            elif isinstance(x, ast.Compare) or (isinstance(x, ast.BinOp) and isinstance(x.op, ast.FloorDiv)):
+                                clip = x
+                    if clip is None:
+                        r.ok(cons, f"`{unparse(d)[:50]}`: the terms reach the division as computed", m.loc(st))
+                        continue
+                    # dominating guard on the total?
+                    guarded = False
+                    for g in walk_no_nested(fn):
+                        if isinstance(g, ast.If) and g.lineno < st.lineno and any(isinstance(x, ast.Call) and call_name(x) in _SUMS | {"fpe_equals", "isfinite", "any", "all", "count_nonzero"} for x in ast.walk(g.test)) and any(isinstance(x, ast.Name) and x.id == tot for x in ast.walk(g.test)):
+                            guarded = True
+                    if guarded:
+                        r.undecided(cons, f"`{unparse(clip)[:50]}` can zero every term of `{tot}`; a test of the total precedes the division but its sufficiency is not decided", m.loc(st))
+                    else:
+                        r.violation(cons, "zero-over-zero-shares", f"`{unparse(d)[:60]}` divides `{tot}` by its own total after `{unparse(clip)[:60]}` (line {clip.lineno}) has sent every term below a threshold to exactly zero: when all models agree to within that threshold the shares are 0 / 0 = NaN, no guard downstream is true for NaN, and the model probabilities never recover", m.loc(st))
+    if n_sites < 1:
+        r.error("sites", "no share-of-total computation of model_weights found (1 confirmed by hand: StaticMultipleModel._preWeight)")
+
+
 def run(chk, p, t):
     chk.explanation = (
         "Static decision of structural necessary conditions of C18: (R1/R2) a path-sensitive typestate "
@@ -1167,7 +1238,7 @@ def run(chk, p, t):
         "documented expressions. NOT decided: Bayes-rule values, underflow beyond the reset, PSD-ness."
     )
     chk.assumptions += ["a normalising form w / sum(w) yields weights summing to one when the sum is finite and non-zero", "numpy.delete returns a new array without the indexed element"]
-    steps = [("C18.R1", rule_r1_r2), ("C18.R3", rule_r3), ("C18.R4", rule_r4), ("C18.R5", rule_r5), ("C18.R6", rule_r6), ("C18.R7", rule_r7)]
+    steps = [("C18.R1", rule_r1_r2), ("C18.R3", rule_r3), ("C18.R4", rule_r4), ("C18.R5", rule_r5), ("C18.R6", rule_r6), ("C18.R7", rule_r7), ("C18.R8", rule_r8)]
     for rid, fn in steps:
         if chk.only_rule is not None and chk.only_rule != rid and not (chk.only_rule == "C18.R2" and rid == "C18.R1"):
             continue
